@@ -86,8 +86,8 @@ let rec value_of_sexp (s : Sexp.t) : pvalue =
   | L (A "a" :: l) -> PArr (List.map value_of_sexp l)
   | L (A "m" :: l) -> PMap (List.map kv_of_sexp l)
   | L (A "sm" :: l) -> PSyncMap (List.map kv_of_sexp l)
-  | L [A "e"; A n; A m] -> PErr (bstr_of_atom n, bstr_of_atom m)
-  | L [A "re"; A n; A m] -> PRtErr (bstr_of_atom n, bstr_of_atom m)
+  | L [A "e"; A i; A n; A m] -> PErr (z_of_string i, bstr_of_atom n, bstr_of_atom m)
+  | L [A "re"; A i; A e; A n; A m] -> PRtErr (z_of_string i, z_of_string e, bstr_of_atom n, bstr_of_atom m)
   | L [A "fn"; A i] -> PFn (bstr_of_atom i)
   | L [A "o"; A t; A p] -> POpaque (bstr_of_atom t, bstr_of_atom p)
   | _ -> failwith ("bad value: " ^ Sexp.to_string s)
@@ -110,8 +110,8 @@ let rec sexp_of_value (v : pvalue) : Sexp.t =
   | PArr l -> L (A "a" :: List.map sexp_of_value l)
   | PMap m -> L (A "m" :: sexp_of_kvs m)
   | PSyncMap m -> L (A "sm" :: sexp_of_kvs m)
-  | PErr (n, m) -> L [A "e"; A (atom_of_bstr n); A (atom_of_bstr m)]
-  | PRtErr (n, m) -> L [A "re"; A (atom_of_bstr n); A (atom_of_bstr m)]
+  | PErr (i, n, m) -> L [A "e"; A (string_of_z i); A (atom_of_bstr n); A (atom_of_bstr m)]
+  | PRtErr (i, e, n, m) -> L [A "re"; A (string_of_z i); A (string_of_z e); A (atom_of_bstr n); A (atom_of_bstr m)]
   | PFn i -> L [A "fn"; A (atom_of_bstr i)]
   | POpaque (t, p) -> L [A "o"; A (atom_of_bstr t); A (atom_of_bstr p)]
 and sexp_of_kvs m =
